@@ -1300,9 +1300,10 @@ class Node:
             data_id = self._tree.calc_data_id(data)
         if data_id:
             assert match is None
-            return [
+            res = [
                 n for n in self.iterator(add_self=add_self) if n._data_id == data_id
             ]
+            return res[:max_results] if max_results else res
         return [
             n for n in self._search(match, add_self=add_self, max_results=max_results)
         ]
